@@ -71,8 +71,7 @@ def _proto_cfg(dev=""):
             "INVARIANT Inv_AcceptedAreGood\nPROPERTY Prop_PosRestored\n")
 
 
-# run_tlc derives its cfg/metadir names from (spec, millisecond, pid): two runs started by threads in the same
-# millisecond would share them.  Every concurrent run therefore gets a private scratch subdirectory.
+# Every concurrent TLC run gets a private scratch subdirectory (cfg, metadir, trace files do not mix).
 _SEQ = itertools.count()
 
 
@@ -308,14 +307,19 @@ def _collect_lattice(ctx, futs):
             if tv.accepted:
                 v.ok(tv.length)
                 continue
-            e = t["ev"][tv.reached]
+            # reached = -1: TLC rejected the trace but the core did not localise the event (more than 12 rejected
+            # traces in the batch); for the message only, point at the first observation outside Gen's class
+            k = tv.reached if tv.reached >= 0 else next(
+                (j for j, x in enumerate(t["ev"]) if (x["exp"], x["obs"]) in (("reject", "ok"), ("accept", "bomb"))
+                 or (x["obs"] == "other" and x["exp"] != "dontcare")), 0)
+            e = t["ev"][k]
             v.violation(what=f"validate_zipfile on entries {e['es']} (fs, cs, dir) with limits "
                              f"(maxEntries, maxSingle, maxTotal, trNum, trDen, erNum, erDen) = {t['hdr']['lim']}: "
                              f"{ {'bomb': 'raised ExtractionZipBombError', 'ok': 'accepted', 'other': 'raised another exception'}[e['obs']]}"
                              f" [{e.get('exc', '')}], specification class = {e['exp']} (fired {e['fired']})",
                         case={"entries": e["es"], "limits": t["hdr"]["lim"]}, expected=e["exp"],
                         observed=e["obs"], where="zip_bomb.py:validate_zipfile")
-            v.ok(tv.reached)
+            v.ok(max(tv.reached, 0))
         total += ncase
         for k, n in res["nontrivial"]:          # n vectors of class "reject" under limit set k of this job
             for j in range(n):
@@ -375,6 +379,11 @@ def _decide_real(ctx, outs):
         if tv.accepted:
             v.ok(tv.length)
             continue
+        if tv.reached < 0:
+            v.violation(what=f"{t['target']}: TLC rejects the outcome classes recorded for the forged ZIPs "
+                             f"(event not localised): {[(c['label'], c['outcome']) for c in t['cases']]}",
+                        case={"target": t["target"]}, where="zip_bomb.py / the extractor's error mapping")
+            continue
         c = t["cases"][tv.reached]
         v.violation(what=f"{t['target']}: forged ZIP '{c['label']}' (default limits; forged entries {c['forged']}, "
                          f"{c['nentries']} entries) -> outcome {c['outcome']}; the specification says "
@@ -409,6 +418,12 @@ def _decide_proto(ctx, traces, pos_traces):
             ev.nontrivial(("proto", t["id"]))
         if tv.accepted:
             v.ok(1)
+            continue
+        if tv.reached < 0:
+            v.violation(what=f"{t['id']}: TLC rejects the recorded construct/validate/read order (event not "
+                             f"localised): {[{k: x[k] for k in x if k != 'where'} for x in t['ev'][:14]]}",
+                        case={"trace": t["id"], "events": t["ev"][:40]},
+                        where="zip_bomb.py:open_zipfile/validate_zip_bytesio; zip_context.py; the extractor")
             continue
         e = t["ev"][tv.reached]
         if e["a"] == "Read":
